@@ -144,14 +144,16 @@ func (c Categorical) Reweight(idx int, w float64) {
 	if w < 0 {
 		panic("categorical: negative weight")
 	}
+	// Validate before writing, so that the distribution is unchanged if the
+	// new weight is rejected.
+	if c.heap[0]-(c.weights[idx]-w) <= 0 {
+		panic("categorical: sum of the weights non-positive")
+	}
 	w, c.weights[idx] = c.weights[idx]-w, w
 	idx++
 	for idx > 0 {
 		c.heap[idx-1] -= w
 		idx >>= 1
-	}
-	if c.heap[0] <= 0 {
-		panic("categorical: sum of the weights non-positive")
 	}
 }
 
@@ -162,10 +164,17 @@ func (c Categorical) ReweightAll(w []float64) {
 	if len(w) != c.Len() {
 		panic("categorical: length of the slices do not match")
 	}
+	// Validate before writing, so that the distribution is unchanged if the
+	// new weights are rejected.
+	var sum float64
 	for _, v := range w {
 		if v < 0 {
 			panic("categorical: negative weight")
 		}
+		sum += v
+	}
+	if sum <= 0 {
+		panic("categorical: sum of the weights non-positive")
 	}
 	copy(c.weights, w)
 	c.reset()
